@@ -1,10 +1,10 @@
 package gen
 
 import (
-	"strings"
 	"encoding/json"
 	"math/big"
 	"sort"
+	"strings"
 
 	"github.com/Oneledger/protocol/action"
 
